@@ -1,6 +1,6 @@
 (** C20 -- executable instances used by the correspondence harness. *)
 From Coq Require Import List Arith Bool.
-From SV Require Import C20.FlaxMap C20.IterateData C20.Checkpoint.
+From SV Require Import C20.FlaxMap C20.IterateData C20.Checkpoint C20.Sharding.
 Import ListNotations.
 
 Fixpoint list_eqb {A} (eqb : A -> A -> bool) (a b : list A) : bool :=
@@ -44,3 +44,10 @@ Definition ckpt_case_ok (c : list (nat * nat) * list nat * (nat * nat)) : bool :
   | Restored v => Nat.eqb (fst v) (fst restored) && Nat.eqb (snd v) (snd restored)
   | FileNotFound _ => false
   end.
+
+(** prepare_data on D devices: (D, rows of the host batch, rows held by each device) *)
+Definition shard_case_ok (c : nat * list nat * list (list nat)) : bool :=
+  let '(D, rows, shards) := c in
+  (1 <=? D) && Nat.eqb (D * (length rows / D)) (length rows) &&
+  list_eqb shape_eqb (shard D (length rows / D) rows) shards &&
+  shape_eqb (unshard shards) rows.
